@@ -16,7 +16,10 @@ vars == <<op, a, b, c, ks, res>>
 E2 == {SInt1, SStrAB}
 E3 == {SInt1, SStrAB, SInt05}
 DictOps == DictsOver(IF Rich THEN E3 ELSE E2)
-Alts == Comp \cup {R_Any, R_Dict, BareAny, R_Head}
+\* (the less used types too: a datetime is not a date, a bytes value is not a str)
+Alts == Comp \cup {R_Any, R_Dict, BareAny, R_Head, BareDatetime, SDatetime0, SDate0, SBytesA, SUuid0}
+\* declarations that hold nothing: an alias, a union member or an operand may be one of them
+Empties == {BareDict, DictOf(<<>>), BareList, ElemsList(<<>>), BareAny, BareStr, SBytesEmpty}
 AltsSmall == {SInt1, SStrAB, BareNone, R_Any, BareAny}
 KeyLists == {NoneOpt, Some(<<>>), Some(<<KA>>), Some(<<KB>>), Some(<<KA, KB>>), Some(<<VStr(<<122>>)>>),
              Some(<<VInt(1)>>), Some(<<VEllipsis>>)}
@@ -31,7 +34,8 @@ Init ==
      \/ op = "add" /\ a \in DictOps /\ b \in DictOps /\ c = None0 /\ ks = NoneOpt
      \/ op = "add_bad" /\ a \in {R_Dict} /\ b \in {BareInt, R_Any} /\ c = None0 /\ ks = NoneOpt
      \/ op = "make_required" /\ a \in DictOps /\ b = None0 /\ c = None0 /\ ks \in KeyLists
-     \/ op = "alias" /\ a \in Alts \cup Rep1 /\ b = None0 /\ c = None0 /\ ks = NoneOpt
+     \/ op = "alias" /\ a \in Alts \cup Rep1 \cup Empties /\ b = None0 /\ c = None0 /\ ks = NoneOpt
+     \/ op = "union" /\ a \in Empties /\ b \in {SInt1, BareNone} /\ c = None0 /\ ks = NoneOpt
      \/ op = "getitem" /\ a \in DictOps /\ b = None0 /\ c = None0 /\ ks = NoneOpt
 
 Result ==
